@@ -471,6 +471,16 @@ func (f *FnEnc) havocAllOpt(st *State, keepGhost bool) {
 	if !keepGhost {
 		st.gepoch = f.epoch
 	}
+	// the package-level invariants hold in every state (trusted as such where
+	// they are first assumed), so also in the unknown one
+	if f.fn != nil && f.fn.Pkg != nil && !f.inGlobalInv {
+		f.inGlobalInv = true
+		for _, g := range f.eng.globalInvs[f.fn.Pkg.Pkg.Path()] {
+			se := &SpecEnv{f: f, pkg: pkgOf(f.fn), vars: map[string]Val{}, oldVars: map[string]Val{}, cur: st, old: st, guard: "true"}
+			f.c.assume("true", f.evalClause(se, g))
+		}
+		f.inGlobalInv = false
+	}
 }
 
 // globalLockCells returns the lock-ghost cells of the mutexes declared with
@@ -963,6 +973,9 @@ func (f *FnEnc) setResult(fr *Frame, in ssa.Value, v Val) {
 func (f *FnEnc) callWith(fr *Frame, st *State, R string, in ssa.Value, cc *ssa.CallCommon, args []Val, fnv *Val, pos token.Pos) {
 	f.curCallPos = cc.Pos()
 	if b, ok := cc.Value.(*ssa.Builtin); ok && !cc.IsInvoke() {
+		if fr == f.top {
+			f.lastCall = "" // (builtins have no ordinal: the result must not be recorded under the previous call's)
+		}
 		v, _ := f.builtin(fr, st, R, in, b, args, cc)
 		if in != nil && len(v.L) > 0 {
 			f.setResult(fr, in, v)
